@@ -7,6 +7,7 @@ from .model import AnalysisError
 
 VERIF = os.path.dirname(os.path.dirname(os.path.abspath(__file__)))
 KNOWN = os.path.join(VERIF, 'known_findings.json')
+_IMPORT_CACHE = {}
 
 
 def load_known():
@@ -87,6 +88,49 @@ class Ctx:
         if key not in [v['key'] for v in self.violations]:
             self.violations.append({'rule': rule, 'key': key, 'where': where,
                                     'msg': msg, 'detail': detail})
+
+    # ------------------------------------------------------------------
+    def import_rules(self, pm, from_prop, rules, as_rule, title, only=None):
+        """Run rules of another property under a rule id of this one.
+
+        A mechanism is often a necessary condition of several properties (the
+        generated validators serve decoding, round trips, compatibility ...).
+        The rule lives where it was written; properties that also depend on it
+        import its instances so that their own check decides it too.  Keys are
+        re-rooted (``<as_rule>|<original key without its rule id>``); a known
+        finding of the source property is not inherited."""
+        import importlib
+        self.rule(as_rule, title)
+        if getattr(self, '_importing', False):
+            return 0      # a sub-run only needs the rules the property owns
+        ck = (id(pm), from_prop)
+        sub = _IMPORT_CACHE.get(ck)
+        if sub is None or sub[0] is not pm:
+            sctx = Ctx(from_prop, tier=self.tier, seed=self.seed, repo=self.repo, quiet=True,
+                       write_files=False)
+            sctx.known = {}
+            sctx._importing = True
+            importlib.import_module('stonelint.rules.' + from_prop).run(pm, sctx)
+            _IMPORT_CACHE[ck] = (pm, sctx)
+            sub = _IMPORT_CACHE[ck]
+        sctx = sub[1]
+        n = 0
+        for o in sctx.obligations:
+            if o['rule'] not in rules:
+                continue
+            key = o['instance']
+            if only is not None and not only(o):
+                continue
+            n += 1
+            if o['verdict'] == 'ok':
+                self.ok(as_rule, o['instance'], o['where'], o.get('detail', ''))
+            else:
+                k = o['instance']
+                suffix = k.split('|', 1)[1] if '|' in k else k
+                self.violation(as_rule, '%s|%s' % (as_rule, suffix), o['where'],
+                               o.get('msg', k), o.get('detail', ''))
+        self.floor(as_rule, n, 1, 'instances imported from %s %s' % (from_prop, sorted(rules)))
+        return n
 
     def exempt(self, rule, symbol, reason):
         self.exemptions.append({'rule': rule, 'symbol': symbol, 'reason': reason})
